@@ -371,6 +371,10 @@ def run(model, tier="quick"):
                   "remove: default price from the status price; delta clamped to the held liquidity; amounts moved to pending", fx, opaque=oq)
     effects_check(res, model, "UniLpMarket._add_liquidity_by_tick", REF_ADD,
                   "add: default price from the status price; wallet debited by the USED amounts; position keyed by the ticks", fx, opaque=oq)
+    from ..rules.fresh import fresh_rule
+    if "R-FRESH" not in res.rules:
+        res.rules.append("R-FRESH")
+    fresh_rule(model, res, scope=('demeter/uniswap/',))
     res.assumptions = ["get_sqrt_ratio_at_tick is TickMath (C06)"]
     res.floor("sign_and_monotonicity_clauses", sign_rule(model, res), 14)
     res.floor("no_overspend_clauses", overspend_rule(model, res), 6)
